@@ -192,6 +192,9 @@ func VerifC08Wire() {
 	vAssume(err == nil)
 	vRunPending()
 	before := len(w.written)
+	// should the client ever set a write deadline: the peer is slow once - the first write of
+	// the call under test gets through except for its last byte before the deadline passes
+	w.partialOn, w.partialDL, w.partialAt, w.partialN = true, true, w.writes, -1
 	verb, anyVerb := vC08Call(conn)
 	vRunPending()
 	all := ""
